@@ -30,6 +30,70 @@ def run(fx, rep, tier):
     rule_lock(fx, rep, ex)
     rule_noblock(fx, rep, ex, arms)
     rule_held(fx, rep, ex)
+    rule_stopflag(fx, rep, ex, arms)
+
+
+# ---- C05-STOPFLAG --------------------------------------------------------------------------
+
+
+def rule_stopflag(fx, rep, ex, arms):
+    """A stop request is never lost: (a) the shared stop flag is only ever *raised* after its construction - the only store
+    is `true`, in Control::stop; nothing lowers it again (a later `store(false)` can wipe a request that arrived first);
+    (b) in the Stop arm, raising the flag and waiting is conditional on nothing but a stop handle being installed."""
+    ok = True
+    n = 0
+    # (a) writers of the flag
+    stores = []
+    for b in fx.fn_bodies():
+        if "::tests::" in b.name:
+            continue
+        for bb, t in b.calls():
+            cn = norm(callee_name(t) or "")
+            if "atomic::Atomic" in cn and cn.split("::")[-1] in ("store", "swap", "fetch_and", "fetch_or", "fetch_xor", "fetch_nand", "compare_exchange", "compare_exchange_weak", "fetch_update"):
+                recv = b.expr(t["args"][0], expand_named=True, at=bb)
+                if not any(isinstance(x, tuple) and len(x) == 3 and x[0] == "field" and x[2] == "force_stop" for x in walk(recv)):
+                    continue
+                val = deep_strip(b.expr(t["args"][1], expand_named=True, at=bb)) if len(t["args"]) > 1 else None
+                stores.append((b, t.get("line"), cn.split("::")[-1], val))
+    for (b, line, op, val) in stores:
+        n += 1
+        good = op == "store" and val in (("const", 1), ("const", True)) and norm(b.name).endswith("time_control::Control::stop")
+        rep.obligation(good)
+        if not good:
+            ok = False
+            rep.violation("C05-STOPFLAG", f"C05-STOPFLAG/writer/{norm(b.name).split('::')[-1]}", f"`{b.name}` line {line} writes the shared stop flag ({op} of `{show(val)[:30]}`): a stop request that arrived before this write is wiped, "
+                          f"so an unbounded search never ends and the input thread waits on the latch forever", {"fn": b.name, "file": b.file, "line": line})
+    n += 1
+    good = any(norm(b.name).endswith("time_control::Control::stop") for (b, _, _, _) in stores)
+    rep.obligation(good)
+    if not good:
+        ok = False
+        rep.violation("C05-STOPFLAG", "C05-STOPFLAG/raise", "Control::stop does not raise the shared stop flag", {"fn": ex.name, "file": ex.file})
+    # (b) the Stop arm
+    entry, region = arms["Stop"]
+    sc = [(bb, ex.blocks[bb]["term"]) for bb in sorted(region) if ex.blocks[bb]["term"]["k"] == "call" and norm(callee_name(ex.blocks[bb]["term"]) or "").endswith("Control::stop")]
+    n += 1
+    good = len(sc) >= 1
+    extra = []
+    for bb, t in sc:
+        for (a, v, s2) in ex.guards_of(bb):
+            if a not in region:
+                continue
+            for (tgt, e, pol, vv) in switch_edge_conds(ex, a):
+                if tgt != s2:
+                    continue
+                og = option_guard(e, pol)
+                if og is not None and mentions_self_field(og[0], "control"):
+                    continue
+                extra.append(show(e)[:80])
+    if extra:
+        good = False
+    rep.obligation(good)
+    if not good:
+        ok = False
+        rep.violation("C05-STOPFLAG", "C05-STOPFLAG/stop-arm", ("the Stop arm raises the stop flag only under the additional condition(s) " + str(extra[:2]) + ": a `stop` can be ignored while an unbounded search is running, which then never answers")
+                      if extra else "the Stop arm never calls Control::stop", {"fn": ex.name, "file": ex.file, "line": sc[0][1].get("line") if sc else None})
+    rep.rule("C05-STOPFLAG", n, 3, ok, "the stop flag is only raised, and raised whenever a handle is installed")
 
 
 # ---- C05-HELD ------------------------------------------------------------------------------
@@ -501,6 +565,12 @@ def rule_noblock(fx, rep, ex, arms, names=("IsReady", "Quit", "Position", "Debug
 
 U = "src/engine/uci/mod.rs"
 MUTANTS = [
+    {"name": "search thread lowers the stop flag when it begins (seed C05-4a)", "expect": "C05-STOPFLAG/writer",
+     "edits": [("src/engine/search/time_control.rs", "    pub fn elapsed(&self) -> Duration {", "    pub fn begin(&mut self) {\n        self.force_stop.store(false, Ordering::Relaxed);\n    }\n\n    pub fn elapsed(&self) -> Duration {"),
+               (U, "                    let mut persistent_state_handle = persistent_state.lock().unwrap();\n", "                    let mut persistent_state_handle = persistent_state.lock().unwrap();\n                    time_strategy.begin();\n")]},
+    {"name": "stop ignored when the latch is still set from an earlier search (seed C05-4b)", "expect": "C05-STOPFLAG/stop-arm",
+     "edits": [(U, "                if let Some(c) = self.control.as_mut() {\n                    c.stop();\n                    self.is_stopped.wait();\n                }\n\n                self.control = None;", "                if !self.is_stopped.is_set() {\n                    if let Some(c) = self.control.as_mut() {\n                        c.stop();\n                        self.is_stopped.wait();\n                    }\n                }\n\n                self.control = None;"),
+               ("src/engine/util/sync.rs", "    // Sets the lock to true and notifies any threads waiting on it.", "    pub fn is_set(&self) -> bool {\n        *self.m.lock().unwrap()\n    }\n\n    // Sets the lock to true and notifies any threads waiting on it.")]},
     {"name": "search thread keeps the stdout lock for the whole search (seed C05-3)", "expect": "C05-HELD",
      "edits": [(U, "                    let mut persistent_state_handle = persistent_state.lock().unwrap();\n", "                    let mut persistent_state_handle = persistent_state.lock().unwrap();\n                    let _stdout = std::io::stdout().lock();\n")]},
     {"name": "ucinewgame keeps the stale stop handle (original defect)", "expect": "C05-TS/wait",
